@@ -30,6 +30,7 @@ fn table(id: &str) -> Option<(RunFn, CheckFn)> {
         "C06" => Some((props::c06::run, props::c06::check_case)),
         "C07" => Some((props::c07::run, props::c07::check_case)),
         "C08" => Some((props::c08::run, props::c08::check_case)),
+        "C09" => Some((props::c09::run, props::c09::check_case)),
         "C11" => Some((props::c11::run, props::c11::check_case)),
         "C12" => Some((props::c12::run, props::c12::check_case)),
         "C15" => Some((props::c15::run, props::c15::check_case)),
